@@ -4,7 +4,9 @@
       bracket body the specification accepts (balanced brackets), no further side condition;
   (2) `classify_eq_readTok`: number / opcode / hex classification of a plain word;
   (3) `btcc_eq_compile` (nesting up to the 200 levels of `Value::DepthGuard`) and `btcc_refuses_deep` (beyond);
-  witnesses: `btcc_opxff` (known finding), `btcc_glued_out_of_grammar`, `btcc_comment_after_group`.
+  (4) `btcc_opx`, `btcc_opx_byte`: the escapes `OP_xNN` / `xNN` assemble to the single byte NN, for EVERY byte (ff included:
+      finding F-C07-opxff, repaired in /repo a4419d3);
+  witnesses: `btcc_opxff`, `btcc_glued_out_of_grammar`, `btcc_comment_after_group`.
 -/
 import Btcdeb
 import BtcdebProofs.Properties.C07
@@ -156,18 +158,21 @@ def hexResult (cur : Value) (n : Int) : Option Bytes → Value
 theorem classifyPlain_eq (cur : Value) (w : Bytes) :
     classifyPlain cur w w.length =
       if isIntWord w = true then .ok { cur with int64 := cAtoi 64 w, type := .T_INT }
-      else if (getOpCode w != 0xff) = true then .ok { cur with int64 := cAtoi 64 w, opcode := getOpCode w, type := .T_OPCODE }
-      else .ok (hexResult cur (cAtoi 64 w) (if w.length % 2 == 0 then
-        tryHex (if (decide (w.length > 2) && w.getD 0 0 == 48 && w.getD 1 0 == 120) = true then w.drop 2 else w)
-        else none)) := by
+      else match parseOpCode w with
+        | some c => .ok { cur with int64 := cAtoi 64 w, opcode := c, type := .T_OPCODE }
+        | none => .ok (hexResult cur (cAtoi 64 w) (if w.length % 2 == 0 then
+            tryHex (if (decide (w.length > 2) && w.getD 0 0 == 48 && w.getD 1 0 == 120) = true then w.drop 2 else w)
+            else none)) := by
   unfold classifyPlain
   have hint : ((cAtoi 64 w != 0 || w == [48]) && intDecimal (cAtoi 64 w) == w) = isIntWord w := rfl
   simp only [hint]
   split
   · rfl
-  · split
-    · rfl
-    · split
+  · cases parseOpCode w with
+    | some c => rfl
+    | none =>
+      simp only
+      split
       · split <;> rename_i heq <;> simp only [heq, hexResult]
       · rfl
 
@@ -175,15 +180,13 @@ theorem classifyPlain_eq (cur : Value) (w : Bytes) :
     agrees with the specification's reading of the word (`Spec.readInt`, `Spec.readOpcode`, hex literal), for
     every word that is not `0x`, does not start a bracket, and contains no C white space (none can: the tokenizer
     and the shell split at blanks; `\v`/`\f` would be skipped by TryHex):
-    decimal integers in canonical form within int64 ↦ T_INT, opcode names with or without OP_ and OP_xNN ↦ T_OPCODE,
-    hex with or without 0x ↦ T_DATA, anything else stays a string — EXCEPT the word(s) the specification reads
-    as opcode 255 (`xff`, `OP_xff`), which the implementation leaves a string (known finding F-C07-opxff). -/
+    decimal integers in canonical form within int64 ↦ T_INT, opcode names with or without OP_ and OP_xNN for every
+    byte NN ↦ T_OPCODE, hex with or without 0x ↦ T_DATA, anything else stays a string. No word is excepted. -/
 theorem classify_eq_readTok (cur : Value) (w : Bytes) (f : Nat) (hne : w ≠ []) (h0x : w ≠ [48, 120])
     (hb : w.head? ≠ some 91) (hsp : ∀ c ∈ w, isSpaceC c = false) :
     classifyPlain cur w w.length = .ok (match Spec.readTok (f + 1) w with
       | some (.int n) => { cur with int64 := n, type := .T_INT }
-      | some (.op c) => if c = 255 then { cur with int64 := cAtoi 64 w, opcode := 0xff }
-                        else { cur with int64 := cAtoi 64 w, opcode := c, type := .T_OPCODE }
+      | some (.op c) => { cur with int64 := cAtoi 64 w, opcode := c, type := .T_OPCODE }
       | some (.hex d) => { cur with int64 := cAtoi 64 w, opcode := 0xff, data := d, type := .T_DATA }
       | _ => { cur with int64 := cAtoi 64 w, opcode := 0xff }) := by
   rw [readTok_plain f w h0x hb, classifyPlain_eq, hex_branch w hne h0x hsp]
@@ -198,54 +201,15 @@ theorem classify_eq_readTok (cur : Value) (w : Bytes) (f : Nat) (hne : w ≠ [])
       · rfl
       · obtain ⟨n, hn⟩ := (int_word_iff w).mp h; rw [hn] at hri; cases hri
     simp only [h1, Bool.false_eq_true, if_false]
-    rw [getOpCode_eq_readOpcode]
+    rw [parseOpCode_eq_readOpcode]
     cases hro : Spec.readOpcode w with
-    | some c =>
-      simp only [Option.getD_some]
-      by_cases hc : c = 255
-      · subst hc
-        simp only [bne_self_eq_false, Bool.false_eq_true, if_false, if_true]
-        -- `xff` has odd length, `OP_xff` starts with a character that is no hex digit
-        obtain ⟨a, b, hw, _, _, _, _⟩ := (readOpcode_255 w).mp hro
-        rcases hw with rfl | rfl
-        · have : hexPart [120, a, b] = [120, a, b] := rfl
-          rw [this]; simp [hexResult]
-        · have : hexPart [79, 80, 95, 120, a, b] = [79, 80, 95, 120, a, b] := rfl
-          rw [this]
-          have : ([79, 80, 95, 120, a, b] : Bytes).all Spec.isHexDigit = false := by
-            simp [Spec.isHexDigit]
-          simp [this, hexResult]
-      · have : (c != 255) = true := by simpa using hc
-        simp [this, hc]
+    | some c => rfl
     | none =>
-      simp only [Option.getD_none, bne_self_eq_false, Bool.false_eq_true, if_false]
+      simp only
       split <;> rename_i heq <;> simp [hexResult]
 
 
 /-! ### 3. whole programs -/
-
-mutual
-/-- no token is the escape for opcode byte 0xff (known finding F-C07-opxff) -/
-def tokOk : Spec.Tok → Bool
-  | .op c => c != 255
-  | .sub b => toksOk b
-  | _ => true
-def toksOk : List Spec.Tok → Bool
-  | [] => true
-  | t :: ts => tokOk t && toksOk ts
-end
-
-theorem toksOk_mem : ∀ (ts : List Spec.Tok), toksOk ts = true → ∀ t ∈ ts, tokOk t = true := by
-  intro ts
-  induction ts with
-  | nil => intro _ t ht; cases ht
-  | cons a ts ih =>
-    intro h t ht
-    rw [toksOk] at h
-    simp only [Bool.and_eq_true] at h
-    rcases List.mem_cons.mp ht with rfl | ht
-    · exact h.1
-    · exact ih h.2 t ht
 
 mutual
 /-- how many `Value` constructors are active at once while the token is read (`Value::DepthGuard` counts
@@ -500,13 +464,13 @@ theorem readTok_plain_not_sub (fs : Nat) (w : Bytes) (b : List Spec.Tok) (h0x : 
     at most `fm` levels, the `Value` constructor with `fm` levels left (`DepthGuard`: 200 at the top) yields a
     value that emits exactly the token's compilation -/
 theorem valueOf_readTok (cx : VCtx) : ∀ (fm : Nat) (w : Bytes) (fs : Nat) (t : Spec.Tok),
-    tokNeed t ≤ fm → Spec.readTok fs w = some t → tokOk t = true →
+    tokNeed t ≤ fm → Spec.readTok fs w = some t →
     ∃ v, valueOf cx fm w w.length = .ok v ∧ Emits v t := by
   intro fm
   induction fm with
   | zero => intro w fs t h; cases t <;> simp [tokNeed] at h
   | succ fm ih =>
-    intro w fs t hneed hread hok
+    intro w fs t hneed hread
     cases fs with
     | zero => simp [Spec.readTok] at hread
     | succ fs =>
@@ -527,13 +491,12 @@ theorem valueOf_readTok (cx : VCtx) : ∀ (fm : Nat) (w : Bytes) (fs : Nat) (t :
           | nil => simp at hb
           | cons a r => simp at hb; exact ⟨r, by rw [hb]⟩
         obtain ⟨body, ws, toks, rfl, hsw, hm, rfl⟩ := readTok_bracket fs rest t hread
-        rw [tokOk] at hok
         rw [tokNeed] at hneed
         have htok := parseArgsString_eq (valueOf cx fm) body _ (by simp; omega) ws hsw
         obtain ⟨vs, hvs, hes⟩ := mapM_corr (Spec.readTok fs) (fun w' => valueOf cx fm w' w'.length) ws toks hm
           (by
             intro w' hw' t' ht' hr'
-            exact ih w' fs t' (by have := toksNeed_mem toks t' ht'; omega) hr' (toksOk_mem toks hok t' ht'))
+            exact ih w' fs t' (by have := toksNeed_mem toks t' ht'; omega) hr')
         rw [valueBody_bracket, htok, hvs]
         simp only [Except.bind]
         rw [appendAll_emits vs toks hes []]
@@ -553,9 +516,6 @@ theorem valueOf_readTok (cx : VCtx) : ∀ (fm : Nat) (w : Bytes) (fs : Nat) (t :
           show Except.ok (s ++ pushInt64 n) = _
           rw [C07.int_emits_minimal]; rfl
         | op c =>
-          rw [tokOk] at hok
-          have hc : c ≠ 255 := by simpa using hok
-          simp only [hc, if_false]
           refine ⟨_, rfl, ?_⟩
           intro s; rfl
         | hex d =>
@@ -603,13 +563,13 @@ theorem mapM_deep (rd : Bytes → Option Spec.Tok) (mk' : Bytes → VM Value) (E
 /-- THE RECURSION, beyond the limit: a token of the grammar that needs more levels than are left is refused
     with the nesting diagnostic (`exit(1)`), whatever else the program contains -/
 theorem valueOf_deep (cx : VCtx) : ∀ (fm : Nat) (w : Bytes) (fs : Nat) (t : Spec.Tok),
-    tokNeed t > fm → Spec.readTok fs w = some t → tokOk t = true →
+    tokNeed t > fm → Spec.readTok fs w = some t →
     valueOf cx fm w w.length = .error (.exit1 depthMsg) := by
   intro fm
   induction fm with
-  | zero => intro w fs t _ _ _; rfl
+  | zero => intro w fs t _ _; rfl
   | succ fm ih =>
-    intro w fs t hneed hread hok
+    intro w fs t hneed hread
     cases fs with
     | zero => simp [Spec.readTok] at hread
     | succ fs =>
@@ -626,14 +586,13 @@ theorem valueOf_deep (cx : VCtx) : ∀ (fm : Nat) (w : Bytes) (fs : Nat) (t : Sp
           | nil => simp at hb
           | cons a r => simp at hb; exact ⟨r, by rw [hb]⟩
         obtain ⟨body, ws, toks, rfl, hsw, hm, rfl⟩ := readTok_bracket fs rest t hread
-        rw [tokOk] at hok
         rw [tokNeed] at hneed
         have htok := parseArgsString_eq (valueOf cx fm) body _ (by simp; omega) ws hsw
         have hdeep := mapM_deep (Spec.readTok fs) (fun w' => valueOf cx fm w' w'.length) (.exit1 depthMsg) fm ws toks hm
           (by
             intro w' hw' t' ht' hr'
-            refine ⟨fun hle => ?_, fun hgt => ih w' fs t' hgt hr' (toksOk_mem toks hok t' ht')⟩
-            obtain ⟨v, hv, _⟩ := valueOf_readTok cx fm w' fs t' hle hr' (toksOk_mem toks hok t' ht')
+            refine ⟨fun hle => ?_, fun hgt => ih w' fs t' hgt hr'⟩
+            obtain ⟨v, hv, _⟩ := valueOf_readTok cx fm w' fs t' hle hr'
             exact ⟨v, hv⟩)
           (by omega)
         rw [valueBody_bracket, htok, hdeep]
@@ -646,12 +605,12 @@ theorem valueOf_deep (cx : VCtx) : ∀ (fm : Nat) (w : Bytes) (fs : Nat) (t : Sp
         | hex d => simp [tokNeed] at hneed
 
 /-- JOB B.3 — for every program inside the grammar (`Spec.readProgram` reads the command-line words as
-    tokens), without the escape for byte 0xff (known finding F-C07-opxff) and nested at most 200 levels
+    tokens) and nested at most 200 levels
     (`Value::DepthGuard`; a plain token is level 1, each enclosing bracket adds one), `btcc` outputs exactly the
     specified compilation: opcode byte / minimal push of the number / minimal push of the hex bytes / minimal push
     of the compiled body, in order. No lexical side condition is left. -/
 theorem btcc_eq_compile (cx : VCtx) (ws : List Bytes) (toks : List Spec.Tok)
-    (hread : Spec.readProgram ws = some toks) (hok : toksOk toks = true) (hdepth : toksNeed toks ≤ 200) :
+    (hread : Spec.readProgram ws = some toks) (hdepth : toksNeed toks ≤ 200) :
     Model.btcc cx ws = .ok (Spec.compileToks toks) := by
   unfold btcc parseArgsList
   rw [parseArgsListWith_group]
@@ -661,14 +620,14 @@ theorem btcc_eq_compile (cx : VCtx) (ws : List Bytes) (toks : List Spec.Tok)
     (by
       intro w hw t ht hr
       exact valueOf_readTok cx _ w (w.length + 2) t
-        (by have := toksNeed_mem toks t ht; show tokNeed t ≤ 200; omega) hr (toksOk_mem toks hok t ht))
+        (by have := toksNeed_mem toks t ht; show tokNeed t ≤ 200; omega) hr)
   simp only [hvs, bind, Except.bind, List.reverse_nil, List.nil_append]
   rw [appendAll_emits vs toks hes []]
   rfl
 
 /-- … and beyond 200 levels the program is refused with the nesting diagnostic and exit status 1 -/
 theorem btcc_refuses_deep (cx : VCtx) (ws : List Bytes) (toks : List Spec.Tok)
-    (hread : Spec.readProgram ws = some toks) (hok : toksOk toks = true) (hdepth : toksNeed toks > 200) :
+    (hread : Spec.readProgram ws = some toks) (hdepth : toksNeed toks > 200) :
     Model.btcc cx ws = .error (.exit1 depthMsg) := by
   unfold btcc parseArgsList
   rw [parseArgsListWith_group]
@@ -677,8 +636,8 @@ theorem btcc_refuses_deep (cx : VCtx) (ws : List Bytes) (toks : List Spec.Tok)
     (fun w => valueOf cx valueDepthLimit w w.length) (.exit1 depthMsg) 200 _ toks hread
     (by
       intro w hw t ht hr
-      refine ⟨fun hle => ?_, fun hgt => valueOf_deep cx _ w (w.length + 2) t hgt hr (toksOk_mem toks hok t ht)⟩
-      obtain ⟨v, hv, _⟩ := valueOf_readTok cx valueDepthLimit w (w.length + 2) t hle hr (toksOk_mem toks hok t ht)
+      refine ⟨fun hle => ?_, fun hgt => valueOf_deep cx _ w (w.length + 2) t hgt hr⟩
+      obtain ⟨v, hv, _⟩ := valueOf_readTok cx valueDepthLimit w (w.length + 2) t hle hr
       exact ⟨v, hv⟩)
     hdepth
   simp only [hdeep, bind, Except.bind]
@@ -686,12 +645,81 @@ theorem btcc_refuses_deep (cx : VCtx) (ws : List Bytes) (toks : List Spec.Tok)
 
 /-! ### witnesses (all run on the real `btcc` of the fixed tree) -/
 
-/-- KNOWN FINDING F-C07-opxff: `btcc OP_xff` pushes the six ASCII characters instead of emitting byte ff,
-    while the specification reads the word as opcode 255 -/
+/-- the specification's reading of the two spellings of the escape: `OP_xNN` and `xNN` (N any hex digit of either
+    case) are one-token programs, the opcode NN -/
+theorem readProgram_opx (a b : UInt8) (ha : Spec.isHexDigit a = true) (hb : Spec.isHexDigit b = true) :
+    Spec.readProgram [[79, 80, 95, 120, a, b]] = some [.op (Spec.hexNibble a * 16 + Spec.hexNibble b)] ∧
+    Spec.readProgram [[120, a, b]] = some [.op (Spec.hexNibble a * 16 + Spec.hexNibble b)] := by
+  have hro : ∀ w : Bytes, bare w = [120, a, b] →
+      Spec.readOpcode w = some (Spec.hexNibble a * 16 + Spec.hexNibble b) := by
+    intro w hw
+    rw [readOpcode_eq, hw, look_specTab_x]
+    simp [xesc, ha, hb]
+  have hint : ∀ r : Bytes, Spec.readInt (79 :: r) = none ∧ Spec.readInt (120 :: r) = none := by
+    intro r
+    constructor <;>
+    · unfold Spec.readInt
+      simp [Spec.isDec]
+  constructor
+  · show (do let t ← Spec.readTok 8 [79, 80, 95, 120, a, b]; let ts ← pure []; pure (t :: ts)) = _
+    rw [readTok_plain 7 _ (by simp) (by simp), (hint _).1, hro _ rfl]
+    rfl
+  · show (do let t ← Spec.readTok 5 [120, a, b]; let ts ← pure []; pure (t :: ts)) = _
+    have hbare : bare [120, a, b] = [120, a, b] := by
+      rcases bare_cases [120, a, b] with h | ⟨h, _⟩
+      · simp at h
+      · exact h
+    rw [readTok_plain 4 _ (by simp) (by simp), (hint _).2, hro _ hbare]
+    rfl
+
+/-- THE ESCAPE, for every byte: `btcc OP_xNN` and `btcc xNN` output the single byte NN — whatever the two hex digits
+    are (either letter case), ff included (before /repo a4419d3 `OP_xff`/`xff` were pushed as text: finding
+    F-C07-opxff, now repaired) -/
+theorem btcc_opx (cx : VCtx) (a b : UInt8) (ha : Spec.isHexDigit a = true) (hb : Spec.isHexDigit b = true) :
+    Model.btcc cx [[79, 80, 95, 120, a, b]] = .ok [UInt8.ofNat (Spec.hexNibble a * 16 + Spec.hexNibble b)] ∧
+    Model.btcc cx [[120, a, b]] = .ok [UInt8.ofNat (Spec.hexNibble a * 16 + Spec.hexNibble b)] := by
+  obtain ⟨h1, h2⟩ := readProgram_opx a b ha hb
+  have hn : ∀ c, toksNeed [Spec.Tok.op c] ≤ 200 := by intro c; simp [toksNeed, tokNeed]
+  exact ⟨btcc_eq_compile cx _ _ h1 (hn _), btcc_eq_compile cx _ _ h2 (hn _)⟩
+
+/-- the lower-case hex digit of a nibble -/
+def hexDigitOf (n : Nat) : UInt8 := UInt8.ofNat (if n < 10 then 48 + n else 87 + n)
+
+theorem hexDigitOf_spec : ∀ n, n < 16 → Spec.isHexDigit (hexDigitOf n) = true ∧ Spec.hexNibble (hexDigitOf n) = n := by
+  decide
+
+/-- … said by value: for EVERY byte v the words `OP_x<hex v>` and `x<hex v>` (two lower-case hex digits) assemble to
+    exactly the byte v -/
+theorem btcc_opx_byte (cx : VCtx) (v : UInt8) :
+    Model.btcc cx [[79, 80, 95, 120, hexDigitOf (v.toNat / 16), hexDigitOf (v.toNat % 16)]] = .ok [v] ∧
+    Model.btcc cx [[120, hexDigitOf (v.toNat / 16), hexDigitOf (v.toNat % 16)]] = .ok [v] := by
+  have hv := UInt8.toNat_lt v
+  obtain ⟨h1, h2⟩ := hexDigitOf_spec (v.toNat / 16) (by omega)
+  obtain ⟨h3, h4⟩ := hexDigitOf_spec (v.toNat % 16) (by omega)
+  have := btcc_opx cx _ _ h1 h3
+  rw [h2, h4] at this
+  have hval : UInt8.ofNat (v.toNat / 16 * 16 + v.toNat % 16) = v := by
+    rw [Nat.div_add_mod']
+    exact UInt8.ofNat_toNat
+  rw [hval] at this
+  exact this
+
+/-- REPAIRED FINDING F-C07-opxff (/repo a4419d3): `btcc OP_xff`, `btcc xff` and `btcc OP_xFF` output the byte ff, and a
+    bracketed `[OP_xff]` is the one-byte push 01 ff of it, as the specification says; the malformed spellings
+    `OP_xf` / `OP_xfff` are outside the grammar (and stay text) -/
 theorem btcc_opxff (cx : VCtx) :
-    Model.btcc cx [[79, 80, 95, 120, 102, 102]] = .ok [6, 79, 80, 95, 120, 102, 102] ∧
-    (Spec.readProgram [[79, 80, 95, 120, 102, 102]]).map Spec.compileToks = some [255] := by
-  refine ⟨rfl, by decide +kernel⟩
+    Model.btcc cx [[79, 80, 95, 120, 102, 102]] = .ok [255] ∧
+    (Spec.readProgram [[79, 80, 95, 120, 102, 102]]).map Spec.compileToks = some [255] ∧
+    Model.btcc cx [[120, 102, 102]] = .ok [255] ∧ Model.btcc cx [[79, 80, 95, 120, 70, 70]] = .ok [255] ∧
+    Model.btcc cx [[91, 79, 80, 95, 120, 102, 102, 93]] = .ok [1, 255] ∧
+    (Spec.readProgram [[91, 79, 80, 95, 120, 102, 102, 93]]).map Spec.compileToks = some [1, 255] ∧
+    Spec.readProgram [[79, 80, 95, 120, 102]] = none ∧ Spec.readProgram [[79, 80, 95, 120, 102, 102, 102]] = none ∧
+    Model.btcc cx [[79, 80, 95, 120, 102]] = .ok [5, 79, 80, 95, 120, 102] := by
+  have e : ∀ (x : Option (List Spec.Tok)), x.isNone = true → x = none := by
+    intro x h; cases x with | none => rfl | some _ => cases h
+  refine ⟨(btcc_opx cx 102 102 (by decide) (by decide)).1, by decide +kernel, (btcc_opx cx 102 102 (by decide) (by decide)).2,
+    (btcc_opx cx 70 70 (by decide) (by decide)).1, by with_unfolding_all rfl, by decide +kernel,
+    e _ (by decide +kernel), e _ (by decide +kernel), by with_unfolding_all rfl⟩
 
 /-- words glued to a group are single words OUTSIDE the grammar — it is the token reader that rejects them
     (`Spec.readProgram` = none: `OP_1[OP_2]` and `[]5` are neither number, opcode, hex nor a bracket) — and the
@@ -711,22 +739,21 @@ theorem btcc_comment_after_group (cx : VCtx) :
     (Spec.readProgram [[91, 91, 79, 80, 95, 50, 93, 35, 99, 10, 79, 80, 95, 49, 93]]).map Spec.compileToks = some [3, 1, 82, 81] := by
   refine ⟨by with_unfolding_all rfl, by decide +kernel⟩
 
-/-- the hypotheses of `btcc_eq_compile` are satisfiable by a non-trivial program: two command-line words,
+/-- the hypotheses of `btcc_eq_compile` are satisfiable by a non-trivial program: four command-line words,
     `[OP_1 [ 0x0102 -5 ]#x⏎ 16 [] ]` (nesting, a comment glued to a group, hex, negative and small integers, an
-    empty group) and `DUP` -/
-def exampleProgram : List Bytes := [[91, 79, 80, 95, 49, 32, 91, 32, 48, 120, 48, 49, 48, 50, 32, 45, 53, 32, 93, 35, 120, 10, 32, 49, 54, 32, 91, 93, 32, 93], [68, 85, 80]]
+    empty group), `DUP`, and the escapes `OP_xff` and `x00` -/
+def exampleProgram : List Bytes := [[91, 79, 80, 95, 49, 32, 91, 32, 48, 120, 48, 49, 48, 50, 32, 45, 53, 32, 93, 35, 120, 10, 32, 49, 54, 32, 91, 93, 32, 93], [68, 85, 80], [79, 80, 95, 120, 102, 102], [120, 48, 48]]
 
-example : ∃ toks, Spec.readProgram exampleProgram = some toks ∧ toksOk toks = true ∧ toksNeed toks ≤ 200 ∧
+example : ∃ toks, Spec.readProgram exampleProgram = some toks ∧ toksNeed toks ≤ 200 ∧
     ∀ cx, Model.btcc cx exampleProgram = .ok (Spec.compileToks toks) ∧
-      Spec.compileToks toks = [9, 81, 5, 2, 1, 2, 1, 133, 96, 0, 118] := by
-  have h1 : (Spec.readProgram exampleProgram).map toksOk = some true := by decide +kernel
+      Spec.compileToks toks = [9, 81, 5, 2, 1, 2, 1, 133, 96, 0, 118, 255, 0] := by
   have h2 : (Spec.readProgram exampleProgram).map (fun t => decide (toksNeed t ≤ 200)) = some true := by decide +kernel
-  have h3 : (Spec.readProgram exampleProgram).map Spec.compileToks = some [9, 81, 5, 2, 1, 2, 1, 133, 96, 0, 118] := by decide +kernel
+  have h3 : (Spec.readProgram exampleProgram).map Spec.compileToks = some [9, 81, 5, 2, 1, 2, 1, 133, 96, 0, 118, 255, 0] := by decide +kernel
   cases h : Spec.readProgram exampleProgram with
-  | none => rw [h] at h1; cases h1
+  | none => rw [h] at h2; cases h2
   | some toks =>
-    rw [h] at h1 h2 h3
-    simp only [Option.map_some, Option.some.injEq, decide_eq_true_eq] at h1 h2 h3
-    exact ⟨toks, rfl, h1, h2, fun cx => ⟨btcc_eq_compile cx exampleProgram toks h h1 h2, h3⟩⟩
+    rw [h] at h2 h3
+    simp only [Option.map_some, Option.some.injEq, decide_eq_true_eq] at h2 h3
+    exact ⟨toks, rfl, h2, fun cx => ⟨btcc_eq_compile cx exampleProgram toks h h2, h3⟩⟩
 
 end Btcdeb.Proofs.C07Lexer
